@@ -93,7 +93,7 @@ func ruleP14Lang(p *Prog, r *Report) {
 						diff = b.Succs[1]
 					}
 					if rejectComplete(diff, func(ret *ssa.Return) string {
-						if p.nilnessAt(ret.Block(), ret.Results[1], 0) != nnNonNil {
+						if p.nilnessAt(ret.Block(), retResult(ret, 1), 0) != nnNonNil {
 							return "no error"
 						}
 						return ""
@@ -184,7 +184,7 @@ func ruleP14Model(p *Prog, r *Report) {
 	cont := p.method("klog", "TagSet", "Contains")
 	if r.anchorFn("P14-barename", cont, "klog.TagSet.Contains") {
 		for _, ret := range returnsOf(cont) {
-			lk, ok := strip(ret.Results[0]).(*ssa.Lookup)
+			lk, ok := strip(retResult(ret, 0)).(*ssa.Lookup)
 			good := ok && strip(lk.Index) == ssa.Value(cont.Params[1])
 			if good {
 				_, fld := fieldLoad(lk.X)
@@ -256,7 +256,7 @@ func ruleP14Model(p *Prog, r *Report) {
 		if r.anchorFn("P14-once", et, "klog.EntrySummary.Tags") {
 			okD := false
 			for _, ret := range returnsOf(et) {
-				if c, _ := callOf(ret.Results[0]); c != nil && sameFn(staticCallee(c), tags) {
+				if c, _ := callOf(retResult(ret, 0)); c != nil && sameFn(staticCallee(c), tags) {
 					okD = true
 				}
 			}
@@ -286,7 +286,7 @@ func ruleP14Model(p *Prog, r *Report) {
 				missing = b.Succs[0]
 			}
 			if rejectComplete(missing, func(ret *ssa.Return) string {
-				if v, isB := constBool(ret.Results[0]); !isB || v {
+				if v, isB := constBool(retResult(ret, 0)); !isB || v {
 					return "not false"
 				}
 				return ""
@@ -296,7 +296,7 @@ func ruleP14Model(p *Prog, r *Report) {
 		}
 		// and true only after the loop
 		for _, ret := range returnsOf(sub) {
-			if v, isB := constBool(ret.Results[0]); isB && v {
+			if v, isB := constBool(retResult(ret, 0)); isB && v {
 				for _, g := range guardsOf(ret.Block()) {
 					if !isLoopGuard(Guard{Cond: g.Cond, Pol: !g.Pol}) && !g.Pol {
 						continue
@@ -502,7 +502,7 @@ func ruleP20Xor(p *Prog, r *Report) {
 				}
 			}
 		}
-		walk(ret.Results[0], 0)
+		walk(retResult(ret, 0), 0)
 		okRet = found
 	}
 	r.check(nEnc == 1 && okRet, "P20-encode", "ToJson", p.pos(f.Pos()), "one Encode of the envelope; the buffer's contents are returned", fmt.Sprintf("ToJson does not return the buffer of exactly one Encode (encodes: %d)", nEnc))
@@ -514,7 +514,7 @@ func (p *Prog) neverNilSlice(g *ssa.Function) bool {
 		return false
 	}
 	for _, ret := range returnsOf(g) {
-		_, leaves := accWeb(ret.Results[0])
+		_, leaves := accWeb(retResult(ret, 0))
 		if len(leaves) == 0 {
 			return false
 		}
@@ -560,11 +560,18 @@ func ruleP20Fields(p *Prog, r *Report) {
 			return "param:" + prm.Name()
 		}
 		if c, idx := callOf(v); c != nil && idx == 0 {
-			n, recv, _, _ := methodCallOf(c)
+			n, recv, margs, _ := methodCallOf(c)
 			if n != "" {
+				if (n == "Minus" || n == "Plus") && len(margs) == 1 {
+					return chain(recv, d+1) + "." + n + "(" + chain(margs[0], d+1) + ")"
+				}
 				return chain(recv, d+1) + "." + n
 			}
 			if g := staticCallee(c); g != nil {
+				// service.Diff(should, actual) is actual.Minus(should) (P02-diff)
+				if fnBase(g) == "Diff" && len(c.Common().Args) == 2 {
+					return chain(c.Common().Args[1], d+1) + ".Minus(" + chain(c.Common().Args[0], d+1) + ")"
+				}
 				var as []string
 				for _, a := range c.Common().Args {
 					if els, ok := sliceLitElems(a); ok && len(els) == 1 {
@@ -614,8 +621,8 @@ func ruleP20Fields(p *Prog, r *Report) {
 		"TotalMins":       "Total(elem).InMinutes",
 		"ShouldTotal":     "elem.ShouldTotal.ToString",
 		"ShouldTotalMins": "elem.ShouldTotal.InMinutes",
-		"Diff":            "Diff(elem.ShouldTotal,Total(elem)).ToStringWithSign",
-		"DiffMins":        "Diff(elem.ShouldTotal,Total(elem)).InMinutes",
+		"Diff":            "Total(elem).Minus(elem.ShouldTotal).ToStringWithSign",
+		"DiffMins":        "Total(elem).Minus(elem.ShouldTotal).InMinutes",
 		"Tags":            "toTagViews(elem.Summary.Tags)",
 		"Entries":         "toEntryViews(elem.Entries)",
 	}, p.pos(rv.Pos()))
@@ -642,7 +649,7 @@ func ruleP20Fields(p *Prog, r *Report) {
 		want := map[string]string{"Range": "range", "Duration": "duration", "OpenRange": "open_range"}
 		for kind, h := range arms {
 			got := ""
-			eachInstr(h, func(in ssa.Instruction) {
+			eachInstrIn(withAnons(h), func(in ssa.Instruction) {
 				if st, ok := in.(*ssa.Store); ok {
 					if fa, ok := st.Addr.(*ssa.FieldAddr); ok && fieldName(fa) == "Type" {
 						got, _ = constString(st.Val)
@@ -655,7 +662,7 @@ func ruleP20Fields(p *Prog, r *Report) {
 	// one view per element, in order
 	for _, f := range []*ssa.Function{rv, ev} {
 		for _, ret := range returnsOf(f) {
-			apps, _ := accWeb(ret.Results[0])
+			apps, _ := accWeb(retResult(ret, 0))
 			ok := len(apps) == 1
 			if ok {
 				only, _ := onlyLoopGuards(apps[0].Block())
@@ -762,9 +769,9 @@ func ruleP20Run(p *Prog, r *Report) {
 	// every return: nil -> exactly one document printed on the path; non-nil -> none needed
 	for i, ret := range returnsOf(run) {
 		key := fmt.Sprintf("return#%d", i)
-		if !isNilConst(ret.Results[0]) {
+		if !isNilConst(retResult(ret, 0)) {
 			// a failure that is returned: must be the read error or the ApplyNow error, non-nil
-			r.check(p.nilnessAt(ret.Block(), ret.Results[0], 0) == nnNonNil, rule, key+":failure", p.instrPos(ret), "a returned failure is non-nil", "a failure return may carry a nil error (exit 0 without a document)")
+			r.check(p.nilnessAt(ret.Block(), retResult(ret, 0), 0) == nnNonNil, rule, key+":failure", p.instrPos(ret), "a returned failure is non-nil", "a failure return may carry a nil error (exit 0 without a document)")
 			continue
 		}
 		n := 0
@@ -782,12 +789,12 @@ func ruleP20Run(p *Prog, r *Report) {
 		// error edge is dominated by the error document
 		okExc := true
 		for _, ret := range returnsOf(run) {
-			if knownNonNil(ret.Block(), rErr) && isNilConst(ret.Results[0]) {
+			if knownNonNil(ret.Block(), rErr) && isNilConst(retResult(ret, 0)) {
 				if errPrint == nil || !errPrint.Block().Dominates(ret.Block()) {
 					okExc = false
 				}
 			}
-			if knownNonNil(ret.Block(), rErr) && !isNilConst(ret.Results[0]) && !sameValue(ret.Results[0], rErr) {
+			if knownNonNil(ret.Block(), rErr) && !isNilConst(retResult(ret, 0)) && !sameValue(retResult(ret, 0), rErr) {
 				okExc = false
 			}
 		}
